@@ -178,7 +178,7 @@ def run(ctx):
                    [("VP_FAIL_OPEN", k, 13) for k in range(op)] + [("VP_FAIL_RAND", k, 38) for k in range(rn)]
             for var, k, en in plan:
                 fjobs.append((mode, n, args_of, {var: k, "VP_ERRNO": en}, None, d))
-            for var, kmax in (("VP_EINTR_READ", r), ("VP_EINTR_WRITE", w)):
+            for var, kmax in (("VP_EINTR_READ", r), ("VP_EINTR_WRITE", w), ("VP_EINTR_RAND", rn)):
                 for k in range(kmax):
                     fjobs.append((mode, n, args_of, {var: k}, good if mode == "decrypt" else b"", d))
             fjobs.append((mode, n, args_of, {"VP_SHORT": 1}, good if mode == "decrypt" else b"", d))
@@ -254,7 +254,7 @@ def run(ctx):
         ctx.stat("nontrivial")
         # every k-th write / open / getrandom failure, EINTR and 1-byte transfers
         plans = [({"VP_FAIL_WRITE": i, "VP_ERRNO": en}, None) for i in range(w) for en in (28, 5)] + [({"VP_FAIL_OPEN": i, "VP_ERRNO": 13}, None) for i in range(op)] + \
-                [({"VP_FAIL_RAND": i, "VP_ERRNO": 38}, None) for i in range(rn)] + [({"VP_EINTR_WRITE": i}, 1) for i in range(w)] + [({"VP_SHORT": 1}, 1)]
+                [({"VP_FAIL_RAND": i, "VP_ERRNO": 38}, None) for i in range(rn)] + [({"VP_EINTR_WRITE": i}, 1) for i in range(w)] + [({"VP_EINTR_RAND": i}, 1) for i in range(rn)] + [({"VP_SHORT": 1}, 1)]
         for i, (env, benign) in enumerate(plans):
             f = os.path.join(d, "g%d.key" % i)
             rc, o, e = tool([crypt, "-g", f], env=env)
